@@ -609,6 +609,19 @@ Definition snap_ok (g : geom) (s : mstate) (o : obs) (ver : N) : bool :=
           (ob_labels o) &&
   pairs_eqv (filter (fun p => negb (fst p =? snd p)) (f_map st)) (ob_mappings o).
 
+(* a body split the server accepted must satisfy the contract under which the split step is proved
+   (Props.C08: C08_consistent_step, C08_split_guard_b_sound): evaluated on the state the model
+   holds at the version the request went to, with the labels the server handed out *)
+Definition split_guard_ok (g : geom) (s : mstate) (st : step) : bool :=
+  match st_req st with
+  | RSplit v body runs =>
+    if st_ok st
+    then split_guard_b (view s v) body (hdN (st_ret st))
+                       (runs_masks g runs (map fst (runs_rl g runs))) (triples (tl (st_ret st)))
+    else true
+  | _ => true
+  end.
+
 (* run one history; false as soon as the model and the server disagree *)
 Definition model_step (fx : fixes) (g : geom) (lay : vol N)
            (acc : bool * mstate * list (N * obs)) (st : step) : bool * mstate * list (N * obs) :=
@@ -627,7 +640,7 @@ Definition model_step (fx : fixes) (g : geom) (lay : vol N)
                    let o := apply_snap base sn in
                    (fst a && snap_ok g s1 o (sn_ver sn), aset N.eqb (sn_ver sn) o (snd a)))
                 (st_snaps st) (true, tbl) in
-  (ok && ok1 && ok2, s1, tbl2).
+  (ok && ok1 && ok2 && split_guard_ok g s st, s1, tbl2).
 
 Definition model_ok_with (fx : fixes) (h : history) : bool :=
   let g := h_geom h in
